@@ -54,6 +54,16 @@ Fixpoint apply_datum (c : codec) (dest : gval) (d : datum) {struct c} : option g
                                | Some v => go ds' (acc ++ [v])
                                | None => None end
                 end) ds acc0)
+      | DArray ds, VBytes acc0 =>
+          (* an array schema over a []byte target: every item contributes one byte *)
+          option_map VBytes
+            ((fix go (ds : list datum) (acc : bytes) {struct ds} : option bytes :=
+                match ds with
+                | [] => Some acc
+                | d' :: ds' => match apply_datum ic iz d' with
+                               | Some v => go ds' (acc ++ [match v with VInt z => z | _ => 0 end])
+                               | None => None end
+                end) ds acc0)
       | _, _ => None
       end
   | CMap vc vz _ =>
